@@ -14,16 +14,17 @@ import (
 
 // Step is one step of a scenario
 type Step struct {
-	Kind     string // set rollback connect disconnect restart-empty replace-conn dev-fault crash settle
-	Ops      []refmodel.Op
-	Sync     bool
-	NoWait   bool   // do not wait for the reply before the next step
-	RbMode   string // latest | latest-change | random | nonexistent | index
-	RbArg    int
-	Target   string
-	Codes    []codes.Code
-	CrashK   int  // crash before the k-th effect counted from this step on
-	CrashRPC bool // ... counted in individual Atomix write RPCs instead of decorated calls
+	Kind         string // set rollback connect disconnect restart-empty replace-conn dev-fault crash settle
+	Ops          []refmodel.Op
+	Sync         bool
+	Serializable bool   // the Set asks for SERIALIZABLE isolation (its successors wait for each of its phases as a whole)
+	NoWait       bool   // do not wait for the reply before the next step
+	RbMode       string // latest | latest-change | random | nonexistent | index
+	RbArg        int
+	Target       string
+	Codes        []codes.Code
+	CrashK       int  // crash before the k-th effect counted from this step on
+	CrashRPC     bool // ... counted in individual Atomix write RPCs instead of decorated calls
 }
 
 func (s Step) String() string {
@@ -39,6 +40,9 @@ func (s Step) String() string {
 		}
 		if s.NoWait {
 			m += ",nowait"
+		}
+		if s.Serializable {
+			m += ",serializable"
 		}
 		return fmt.Sprintf("set(%s)[%s]", m, strings.Join(ops, " "))
 	case "rollback":
@@ -69,6 +73,7 @@ type Profile struct {
 	PSync          int  // % of Sets that are synchronous
 	PStartOffline  int  // % chance that a target is offline at the start
 	PDevFault      int  // % chance of a transient device fault burst after a step
+	PSerializable  int  // % of Sets that ask for SERIALIZABLE isolation through the transaction-strategy extension
 	PForeign       int  // % of environment actions that add / remove a CONTROLS relation of another onos-config node
 	PCrash         int  // % chance that the scenario contains one crash
 	PSlowPlugin    int  // % of model-plugin validations that stall for 5..40 ms (one target's validation much slower than another's)
@@ -212,7 +217,11 @@ func GenScenario(r *fw.Rng, p *Profile, s *refmodel.Schema) []Step {
 			steps = append(steps, Step{Kind: "rollback", RbMode: mode, RbArg: r.Intn(1000), NoWait: r.Chance(p.PNoWait, 100)})
 		} else {
 			sets++
-			steps = append(steps, Step{Kind: "set", Ops: GenOps(r, p, s, i+1), Sync: r.Chance(p.PSync, 100), NoWait: r.Chance(p.PNoWait, 100)})
+			st := Step{Kind: "set", Ops: GenOps(r, p, s, i+1), Sync: r.Chance(p.PSync, 100), NoWait: r.Chance(p.PNoWait, 100)}
+			if p.PSerializable > 0 {
+				st.Serializable = r.Chance(p.PSerializable, 100)
+			}
+			steps = append(steps, st)
 		}
 		if r.Chance(p.PDevFault, 100) {
 			t := p.Targets[r.Intn(len(p.Targets))]
